@@ -3,6 +3,40 @@
 import json, os, glob, re
 HOME = os.path.dirname(os.path.dirname(os.path.abspath(__file__)))
 NOTES = {
+ 'C01-r3b': 'round 3. Initially MISSED: every creation was checked in isolation. C01 now runs creation SEQUENCES in one process (same shape, dtype and chunk length; constant / fill function / the same constant again; fill functions that fail part-way), generated and as a fixed grid',
+ 'C01-r3d': 'round 3. Initially MISSED, same remedy as C01-r3b: a fill function that raises at chunk k, followed by further creations that must be right',
+ 'C02-r3b': 'round 3. A C02 seed that needs a short write on the first chunk of an append to a non-empty array; caught by the C09 check (fault injection), not by C02',
+ 'C02-r3d': 'round 3. A C02 seed that needs a short write; caught by C09',
+ 'C02-r3c': 'round 3. Initially MISSED (NumPy integers were kept out of truncate indices), then exit 2 (the harness died reopening the damaged array). Now: NumPy-integer truncation indices with a refuse-or-honour oracle, appends of up to 9000 rows so that narrow offsets wrap, and a failing reopen is a reported violation',
+ 'C03-r3b': 'round 3. Initially MISSED: no zero-row operand with an incompatible trailing shape or rank; kinds zero-badshape / zero-badrank / [] added',
+ 'C03-r3c': 'round 3. Caught at once, but through a side path; histories now also append 7..9000 rows so that lengths gain and lose decimal digits',
+ 'C04-r3d': 'round 3. Initially MISSED: the live handle was read after every step, which keeps any per-handle cache fresh. Histories can now be lazy: the live handle is read only after flagged steps and at the end (a fresh handle after every step)',
+ 'C05-r3b': 'round 3. A C05 seed that needs the index-row write to fail after the values were written; caught by C10',
+ 'C05-r3d': 'round 3. Initially MISSED: only one array object was alive at a time. Histories now create sibling arrays (other dtype / atom / index type) that stay alive, and check them at the end',
+ 'C06-r3b': 'round 3. Initially MISSED: base-relative paths never contained ".." behind a symlinked directory; added, with a decoy array where a lexical collapse would point; the path oracle now accepts lexically equivalent spellings only if they still name the data file',
+ 'C06-r3d': 'round 3. Initially MISSED: the same question was never asked before and after a truncation on one handle with nothing in between; churn modes ask-trunc-ask / ask-append-ask added',
+ 'C07-r3c': 'round 3. Initially MISSED: no history whose last step is a truncation by object after code had been requested at the larger length; churn mode trunc-last added',
+ 'C08-r3b': 'round 3. Initially MISSED: histories contained no failing appends. Failing iterappends (iterable raises / bad item after k good ones) are now history steps for Array and RaggedArray',
+ 'C08-r3d': 'round 3. Initially MISSED: the fixed shrink-regrow history switched handles half-way. Generated grow / shrink / regrow histories on ONE handle around 5 subarrays were added (also used by C04, C05)',
+ 'C09-r3c': 'round 3. Initially MISSED: the only unconvertible element was a string. Kinds overflow (Python int outside the integer type: OverflowError), None (integers only), ragged rows, complex into real were added',
+ 'C10-r3c': 'round 3. First evaluation ended in exit 2 (the forked fault child died with SIGSEGV while inspecting the array). A fault child killed by SIGSEGV/SIGBUS is now reported as a violation',
+ 'C11-r3c': 'round 3. Initially MISSED: metadata states had two keys or none. A single-key state (the mutator removes the last key, the file is unlinked) was added',
+ 'C12-r3a': 'round 3. Initially MISSED: no Python bool as an index; added (alone and inside tuples)',
+ 'C12-r3b': 'round 3. Initially MISSED: read-only handles were only combined with explicit r+ blocks. C12 cases are now op lists with contexts and live iterators of any mode, nested in any combination, and mode assignments',
+ 'C12-r3c': 'round 3. Initially MISSED, same remedy as C12-r3b (a refused r+ request nested in an r block is tolerated, the descriptor leak after leaving is not)',
+ 'C12-r3d': 'round 3. Initially MISSED, same remedy as C12-r3b (refused write outside, then a write inside an explicit r+ block)',
+ 'C13-r3a': 'round 3. Initially MISSED: NumPy scalars were int8/uint16/int64/uint64 and float16/32/64 only; all integer widths, longdouble, 0-d and big-endian arrays added',
+ 'C13-r3d': 'round 3. Initially MISSED: arrays were always created on fresh paths; start states on a path occupied by an array with metadata (overwrite=True with None / {} / given metadata, and copy() onto it) added',
+ 'C14-r3a': 'round 3. A C14 seed that needs two interleaved iterators with adjacent frames; caught by C19 after its generators got a parameter set with default steps in all three',
+ 'C14-r3d': 'round 3. Initially MISSED: iteration was only asked of arrays at rest. Ask - change length - ask again histories on one handle added (append, failing iterappend, truncation, append inside a context)',
+ 'C15-r3c': 'round 3. Initially MISSED: copies always went to fresh paths; targets occupied by an array with metadata, and sources whose metadata were emptied, added',
+ 'C15-r3d': 'round 3. Initially MISSED, then exit 2 (the harness relied on fresh reads). The caller now changes values handed out by src.metadata in place before copying; C13 checks the same aliasing after every step',
+ 'C16-r3d': 'round 3. Initially MISSED: archive paths were absolute. Spellings ~/x, ./x, sub/../x, $HOME/x, relative and absolute, with older files at every candidate location, HOME and cwd inside the scratch directory (shared by C15 and C16)',
+ 'C18-r3a': 'round 3. Initially MISSED: every corruption changed the length or the time stamp of the descriptor. Same-length corruptions and restoring the time stamps after any corruption added; the valid array is used in the same process first',
+ 'C18-r3c': 'round 3. Initially MISSED: by-path calls were never made while an r+ handle created before the damage holds the array open; added (context and live iterator)',
+ 'C19-r3a': 'round 3. Initially MISSED: no overlapping frames with a write inside the overlap between two advances; parameter set 2 and the write-next-to-generator action added',
+ 'C19-r3b': 'round 3. Initially MISSED: no frames smaller than the stdio buffer with a write just behind the last returned frame; same remedy',
+ 'C20-r3b': 'round 3. Initially MISSED: arrays were always opened through absolute paths; handles made from relative paths and spellings that go up past the working directory and back added',
  'C06-r2b': 'round 2. Initially MISSED: no array was reached through a symlinked directory followed by "..". Added (and handles opened by relative paths)',
  'C06-r2c': 'round 2. First evaluation ended with exit 2: the Julia reference interpreter did not know reinterpret(); it now implements it, and the generated program is found ill-formed (ArgumentError for an odd first dimension / wrong dims)',
  'C07-r2b': 'round 2. Shows only in README.txt (snippets stale after a truncation that crosses the 3/2 or 2/1 subarray boundary): caught by C08, not by C07, as its author predicted',
@@ -58,7 +92,8 @@ for d in sorted(glob.glob(os.path.join(HOME, 'seeded', '*'))):
         'summary': am.get('summary'),
         'needs': am.get('needs'),
         'origin': 'written by an independent sub-agent that saw only the property text and its own scratch worktree of /repo',
-        'agent_ran': am.get('ran'),
+        'kind': am.get('kind'),
+        'agent_ran': am.get('ran') or am.get('agent_ran'),
         'confirmed_by_me': {
             'how': 'tools/seedeval.sh: patch applied to a scratch copy of /repo HEAD; full pytest suite there; demo.py against clean and patched copy; ./check <ID> --tier quick with DARR_SRC=<patched copy>',
             'results': conf,
